@@ -272,9 +272,9 @@ def scan_unit_header(path):
     # table kinds (for StaticInit): explicit specialisation "template <>" vs partial "template <typename NumericType>"
     for tbl in ('Abbreviations', 'Spellings', 'ConsistentUnits', 'RelatedUnitSystems', 'MapOfConversionsFromStandard',
                 'MapOfConversionsToStandard'):
-        mm = re.search(r'template\s*<([^>]*)>\s*inline\s+(constexpr\s+)?const\s[^;{]*?\b' + tbl + r'<\s*Unit::' + T + r'\b', s2, re.S)
+        mm = re.search(r'template\s*<([^>]*)>\s*inline\s+((?:constexpr\s+)?)(?:const\s+)?[^;{=]*?\b' + tbl + r'<\s*Unit::' + T + r'\b', s2, re.S)
         if mm:
-            out['kinds'][tbl] = 'constant' if mm.group(2) else ('explicit' if mm.group(1).strip() == '' else 'partial')
+            out['kinds'][tbl] = 'constant' if mm.group(2) else ('ordered' if mm.group(1).strip() == '' else 'unordered')
     return out
 
 
